@@ -245,7 +245,8 @@ Section P.
         rewrite (finish_lkb _ _ _ _ _ _ Hrun'). cbn. lia.
     - (* the nested AddPermission *)
       subst x p'. cbn [do_step]. destruct (lookup a (pmap s)) as [p|] eqn:Lk.
-      + rewrite (H1 _ _ (lookup_In _ _ _ Lk)). unfold step_facts. same_state s.
+      + rewrite (H1 _ _ (lookup_In _ _ _ Lk)). unfold step_facts.
+        split; [exact Hcr|split; [apply grows_same; reflexivity|split; [exact H1|]]].
         split; [apply finish_tinv; cbn; auto|].
         split; [auto|]. split; [intros c J; right; destruct J as (E & L & C); apply finish_just; auto|].
         rewrite (finish_lkb _ _ _ _ _ _ Hrun1). cbn. lia.
@@ -278,7 +279,8 @@ Section P.
     - unfold step_facts. same_state s. split; [exact I|]. split; [auto|]. split; [auto|]. cbn [lkb]; lia.
     - (* AddPermission: look up *)
       destruct (lookup a (pmap s)) as [p|] eqn:Lk.
-      + unfold touch_timer. rewrite (H1 _ _ (lookup_In _ _ _ Lk)). unfold step_facts. same_state s.
+      + rewrite (H1 _ _ (lookup_In _ _ _ Lk)). unfold step_facts. cbn.
+        split; [assumption|split; [apply grows_same; reflexivity|split; [exact H1|]]].
         split; [exact I|]. split; [auto|]. split; [auto|]. cbn [lkb]; lia.
       + unfold step_facts. split; [exact Hcr|split; [apply grows_same; reflexivity|split; [exact H1|]]].
         split; [apply finish_tinv; cbn; split; [exact ordp_run|split; discriminate]|].
@@ -289,7 +291,9 @@ Section P.
       + destruct (lookup a (cmap s)) as [c|] eqn:Lk.
         * assert (Harm : has_id c (carmed s) = true).
           { destruct (H2 _ _ (lookup_In _ _ _ Lk)) as [A|(j & tj & Hj & J)]; [exact A|]. exfalso. eapply no_just0; [exact Hn|exact Hj|exact J]. }
-          rewrite Harm. unfold step_facts. same_state s. split; [exact I|]. split; [auto|]. split; [auto|]. cbn [lkb]; lia.
+          rewrite Harm. unfold step_facts. cbn. rewrite Hc.
+          split; [assumption|split; [apply grows_same; reflexivity|split; [exact H1|]]].
+          split; [exact I|]. split; [auto|]. split; [auto|]. cbn [lkb]; lia.
         * unfold step_facts. split; [exact Hcr|split; [apply grows_same; reflexivity|split; [exact H1|]]].
           split; [apply finish_tinv; cbn; split; [exact ordc_run|split; discriminate]|].
           split; [auto|]. split; [intros c []|]. rewrite (finish_lkb _ _ _ _ _ _ ordc_run). cbn. lia.
@@ -364,24 +368,24 @@ Section P.
       + apply Forall_upd; [|exact C]. rewrite Forall_forall in *. intros x Hx. eapply tinv_mono; eauto.
       + pose proof (nlk_upd th i t t' Hi) as U. lia.
     - destruct (lookup p (parmed s)) as [a|]; [|exact HI]. destruct (memN p (pstopped s)); [exact HI|].
-      unfold Inv, remove_perm. destruct (lookup a (pmap s)); [|exact HI]. cbn.
-      split; [assumption|]. split; [intros a0 p0 Hin; apply In_del in Hin; eapply H1; eauto|].
-      split; [exact H2|]. split; [|exact Hn]. rewrite Forall_forall in *. intros x Hx. eapply tinv_same; [| |apply HF; exact Hx]; reflexivity.
+      unfold Inv, remove_perm. destruct (lookup a (pmap s)); cbn.
+      + split; [assumption|]. split; [intros a0 p0 Hin; apply In_del in Hin; eapply H1; eauto|].
+        split; [exact H2|]. split; [|exact Hn]. rewrite Forall_forall in *. intros x Hx. eapply tinv_same; [| |apply HF; exact Hx]; reflexivity.
+      + split; [assumption|]. split; [exact H1|].
+        split; [exact H2|]. split; [|exact Hn]. rewrite Forall_forall in *. intros x Hx. eapply tinv_same; [| |apply HF; exact Hx]; reflexivity.
     - destruct (lookup c (carmed s)) as [a|]; [|exact HI]. destruct (memN c (cstopped s) || chlock s); [exact HI|].
-      unfold Inv, remove_chan. destruct (lookup a (cmap s)); [|exact HI]. cbn.
-      split; [assumption|]. split; [exact H1|].
-      split; [intros a0 c0 Hin; apply In_del in Hin; eapply H2; eauto|]. split; [|exact Hn].
-      rewrite Forall_forall in *. intros x Hx. eapply tinv_same; [| |apply HF; exact Hx]; reflexivity.
+      unfold Inv, remove_chan. destruct (lookup a (cmap s)); cbn.
+      + split; [assumption|]. split; [exact H1|].
+        split; [intros a0 c0 Hin; apply In_del in Hin; eapply H2; eauto|]. split; [|exact Hn].
+        rewrite Forall_forall in *. intros x Hx. eapply tinv_same; [| |apply HF; exact Hx]; reflexivity.
+      + split; [assumption|]. split; [exact H1|]. split; [exact H2|]. split; [|exact Hn].
+        rewrite Forall_forall in *. intros x Hx. eapply tinv_same; [| |apply HF; exact Hx]; reflexivity.
   Qed.
 
   Theorem wrun_inv sched : forall w, Inv w -> Inv (wrun ordp ordc sched w).
   Proof.
     induction sched as [|o r IH]; intros w H; [exact H|]. cbn [wrun fold_left]. apply IH. apply wstep_inv. exact H.
   Qed.
-
-  (* threads as the harness and the server start them *)
-  Definition initial (t : thread) : bool :=
-    match t with TDone | TAddPerm _ | TAddChan _ | TClose0 => true | _ => false end.
 
   Lemma init_inv th : forallb initial th = true -> Inv (init, th).
   Proof.
